@@ -1,5 +1,5 @@
 import SamVerif.Model.CompileGate
-import SamVerif.Lemmas.MatchLower
+import SamVerif.Lemmas.MatchLowerBind
 import SamVerif.Model.OptKernel
 import SamVerif.Props.C04
 import SamVerif.Props.C07
@@ -17,11 +17,13 @@ proved, for all inputs, are the gates the property rests on:
                                aborts: false on the code (witnesses), true under explicit side conditions.
 3. `ts_literal_closed…`      — a string constant pasted between back quotes is one substitution-free
                                template literal: false (witnesses), true without `` ` ``, `${`, `\`, CR.
-4. `exhaustive_no_fallback…` — composition of C07 with the model of `lower_match`
+4. `exhaustive_no_fallback`  — composition of C07 with the model of `lower_match`
                                (Model/MatchLower.lean): a `match` the checker accepts never reaches the
                                fallback panic and its pattern tests never fault, for all types, arm lists
-                               and values.  False on the code for object patterns that name a field twice
-                               (finding C03-F3, witness below); proved under `noDupFields`.
+                               and values (full strength since fix 76a01ae; see the note in section 4);
+                               `bindings_correct/_frame/_complete` (temporaries hold the source bindings,
+                               first matching alternative of an or-pattern), `iflet_correct`,
+                               `let_destructure_total`.
 -/
 namespace SamVerif.C03
 open SamVerif
@@ -142,62 +144,24 @@ example : (tsDecode [233, 96, 36, 123, 49, 125]).isSome = true :=
   ts_literal_closed_partial _ (by decide)
 end tslit
 
-/-! ## 4. An accepted `match` never reaches the fallback panic -/
+/-! ## 4. Accepted patterns never go wrong: `match`, `if let`, `let` -/
 section matching
 open SamVerif.Useful SamVerif.MatchLower
 
-/- FULL STATEMENT (false on the unchanged code):
-   ∀ sig cx fuel arms t v, CxOk sig cx → cpatTyAll sig arms t = true →
-     incompleteCounterexampleF cx fuel (abstractArms arms) = some none → hasTy sig v t = true →
-     ∃ i, runMatch (lowerMatch arms) v = .arm i -/
+/- Historical note (finding C03-F3, fixed by /repo 76a01ae): before that fix the checker accepted an
+object pattern naming a field twice (`{ f0 as B(_), f0 as _, f1 as _ }`), the exhaustiveness analysis
+kept only the last sub-pattern, and `exhaustive_no_fallback` was false (witness `S.init(E.A(), 40)`
+reached the fallback panic); this file then carried `exhaustive_no_fallback_counterexample` and a
+`_partial` theorem under `noDupFields`.  The checker now rejects such patterns, `cpatTy` (what the
+checker guarantees) includes `nodupNat orders`, and the statements below are at full strength. -/
 
-/-- type 0 = int, type 1 = `E(A, B(int))`, type 2 = `S(val f0: E, val f1: int)` -/
-def sigW : Sig := fun t =>
-  match t with
-  | 1 => .enum 0 [(0, []), (1, [0])]
-  | 2 => .struct [(0, 1), (1, 0)]
-  | _ => .prim
-def cxW : Cx := fun c => match c with | 0 => [(0, 0), (1, 1)] | _ => []
-
-/-- `match s { { f0 as B(_), f0 as _, f1 as _ } -> … }` -/
-def armW : CPat := .object 2 [0, 0, 1] [.variant ⟨0, 1⟩ [.wild], .wild, .wild]
-/-- `S.init(E.A(), 40)` -/
-def valW : Val := .con none [.con (some ⟨0, 0⟩) [], .prim 40]
-
-theorem isNone_map {α : Type} (x : Option (Option α)) (h : x.map Option.isNone = some true) :
-    x = some none := by
-  cases x with
-  | none => simp at h
-  | some y => cases y <;> simp_all
-
-theorem sigW_cxOk : CxOk sigW cxW := by
-  intro t cls vs h
-  unfold sigW at h
-  split at h <;> first | (injection h with h1 h2; subst h1; subst h2; rfl) | cases h
-
-/-- **Witness (finding C03-F3)**: the arm is a well-typed checked pattern, the exhaustiveness
-analysis finds no counterexample for the abstract pattern the checker built (the slot of `f0` was
-overwritten by the wildcard), the value is well typed - and the lowered `match` ends in the fallback
-panic. -/
-theorem exhaustive_no_fallback_counterexample :
-    CxOk sigW cxW ∧ cpatTyAll sigW [armW] 2 = true ∧
-    incompleteCounterexampleF cxW 10 (abstractArms [armW]) = some none ∧
-    hasTy sigW valW 2 = true ∧ runMatch (lowerMatch [armW]) valW = .fallback := by
-  refine ⟨sigW_cxOk, by decide, isNone_map _ (by decide), by decide, by decide⟩
-
-/-- the same witness against `lower_correct`: test and abstract pattern disagree -/
-theorem lower_correct_counterexample :
-    cpatTy sigW armW 2 = true ∧ hasTy sigW valW 2 = true ∧
-    evalCode (lowerPat armW) valW = some false ∧ pmatch (absOf armW) valW = true := by
-  refine ⟨by decide, by decide, by decide, by decide⟩
-
-/-- **lower_correct_partial**: on a typed checked pattern that names no field twice, the emitted
-test computes exactly "the value matches the abstract pattern the exhaustiveness analysis saw" and
-performs no faulting access (`≠ none`) - for every well-typed value. -/
-theorem lower_correct_partial (sig : Sig) (p : CPat) (t : Nat) (v : Val)
-    (hty : cpatTy sig p t = true) (hnd : noDupFields p = true) (hv : hasTy sig v t = true) :
+/-- **lower_correct**: on a typed checked pattern the emitted test computes exactly "the value matches
+the abstract pattern the exhaustiveness analysis saw" and performs no faulting access (`≠ none`) -
+for every well-typed value. -/
+theorem lower_correct (sig : Sig) (p : CPat) (t : Nat) (v : Val)
+    (hty : cpatTy sig p t = true) (hv : hasTy sig v t = true) :
     evalCode (lowerPat p) v = some (pmatch (absOf p) v) :=
-  lowerPat_correct sig p t v hty hnd hv
+  lowerPat_correct sig p t v hty hv
 
 /-- **lowering_total**: lowering a typed checked pattern never indexes the struct mapping out of
 range (`resolved_struct_mappings[index]`). -/
@@ -210,33 +174,150 @@ theorem abstract_typed (sig : Sig) (p : CPat) (t : Nat) (hty : cpatTy sig p t = 
     patTy sig (absOf p) t = true :=
   absOf_typed sig p t hty
 
-/-- **exhaustive_no_fallback_partial** (composition of C07's `match_accepted_exhaustive` with the
-lowering model): if the checker accepts the arms of a `match` on a scrutinee of type `t` (typed
-patterns, no missing case reported) and no arm names a field twice, then for every value of type `t`
-the body of some arm runs: never the fallback panic, never a fault.  For all signatures, arm lists
-and values; `fuel` is whatever the analysis needed (C07 proves that it terminates). -/
-theorem exhaustive_no_fallback_partial (sig : Sig) (cx : Cx) (hcx : CxOk sig cx) (fuel : Nat)
+/-- **exhaustive_no_fallback** (composition of C07's `match_accepted_exhaustive` with the lowering
+model): if the checker accepts the arms of a `match` on a scrutinee of type `t` (typed patterns, no
+missing case reported), then for every value of type `t` the body of some arm runs: never the
+fallback panic, never a fault.  For all signatures, arm lists and values; `fuel` is whatever the
+analysis needed (C07 proves that it terminates). -/
+theorem exhaustive_no_fallback (sig : Sig) (cx : Cx) (hcx : CxOk sig cx) (fuel : Nat)
     (arms : List CPat) (t : Nat) (v : Val)
-    (hty : cpatTyAll sig arms t = true) (hnd : noDupFieldsL arms = true)
+    (hty : cpatTyAll sig arms t = true)
     (hacc : incompleteCounterexampleF cx fuel (abstractArms arms) = some none)
     (hv : hasTy sig v t = true) :
     ∃ i, i < arms.length ∧ runMatch (lowerMatch arms) v = .arm i := by
   obtain ⟨a, hmem, hm⟩ := match_accepted_exhaustive sig cx hcx fuel _ t
     (cpatTyAll_mem sig arms t hty) hacc v hv
-  obtain ⟨i, _, h2, h3⟩ := runMatchFrom_of_exists sig t v hv arms 0 hty hnd ⟨a, hmem, hm⟩
+  obtain ⟨i, _, h2, h3⟩ := runMatchFrom_of_exists sig t v hv arms 0 hty ⟨a, hmem, hm⟩
   exact ⟨i, by omega, h3⟩
 
--- non-vacuity: `match s { { f0 as B(_), f1 as _ } -> 0, { f1 as _, f0 as A } -> 1 }` is accepted
--- and both arms are reachable
+/-! ### bindings -/
+
+/-- the statement-level semantics (with assignments) has the same condition and the same faults as
+the condition-only semantics the theorems above speak about -/
+theorem exec_refines_eval (c : Code) (v : Val) : (execCode c v).map (fun r => r.1) = evalCode c v :=
+  exec_fst c v
+
+theorem exec_of_eval (c : Code) (v : Val) (b : Bool) (h : evalCode c v = some b) :
+    ∃ d, execCode c v = some (b, d) := by
+  have := exec_fst c v
+  rw [h] at this
+  cases he : execCode c v with
+  | none => rw [he] at this; simp at this
+  | some r => obtain ⟨b', d⟩ := r; rw [he] at this; simp at this; exact ⟨d, by rw [this]⟩
+
+/-- **bindings_correct**: when the emitted test of a typed checked pattern succeeds, every temporary
+holds what the source semantics binds - for an or-pattern the bindings of the *first matching*
+alternative, although alternatives that failed earlier may have assigned the same temporaries. -/
+theorem bindings_correct (sig : Sig) (p : CPat) (t : Nat) (v : Val) (d : Delta)
+    (hty : cpatTy sig p t = true) (hb : bindsOk p = true) (hv : hasTy sig v t = true)
+    (h : execCode (lowerPat p) v = some (true, d)) :
+    ∀ x, d.lookup x = (srcDelta p v).lookup x :=
+  exec_binds sig p t v d hty hb hv h
+
+/-- **bindings_frame**: whatever the outcome (also in alternatives that fail), only temporaries of
+the pattern's own names are assigned. -/
+theorem bindings_frame (p : CPat) (v : Val) (b : Bool) (d : Delta) (hb : bindsOk p = true)
+    (h : execCode (lowerPat p) v = some (b, d)) : ∀ x w, (x, w) ∈ d → x ∈ names p :=
+  exec_names p v b d hb h
+
+/-- **bindings_complete**: after a successful test every declared temporary has been assigned
+(no read of an uninitialised `LateInit` variable in the arm's body). -/
+theorem bindings_complete (p : CPat) (v : Val) (d : Delta) (hb : bindsOk p = true)
+    (h : execCode (lowerPat p) v = some (true, d)) : ∀ x ∈ names p, (d.lookup x).isSome = true :=
+  exec_assigns p v d hb h
+
+/-! ### `if let` and `let` -/
+
+/-- **iflet_correct**: `if let p = e { a } else { b }` on a typed pattern and value never faults and
+runs `a` (with the source bindings) exactly when the value matches - including when the condition
+was decided at compile time by the `== ONE` / `== ZERO` shortcuts of `lower_if_else`. -/
+theorem iflet_correct (sig : Sig) (p : CPat) (t : Nat) (v : Val)
+    (hty : cpatTy sig p t = true) (hv : hasTy sig v t = true) :
+    ∃ d, execCode (lowerPat p) v = some (pmatch (absOf p) v, d) ∧
+      runIfLet (lowerPat p) v = if pmatch (absOf p) v then .thenB d else .elseB := by
+  obtain ⟨d, hd⟩ := exec_of_eval _ _ _ (lowerPat_correct sig p t v hty hv)
+  refine ⟨d, hd, ?_⟩
+  simp only [runIfLet, hd]
+  cases hone : (lowerPat p).isOne with
+  | true =>
+    have := isOne_sound _ v _ hone (lowerPat_correct sig p t v hty hv)
+    simp [this]
+  | false =>
+    cases hz : (lowerPat p).isZero with
+    | true =>
+      have hc : lowerPat p = .zero := by
+        cases hl : lowerPat p <;> simp [hl, Code.isZero] at hz ⊢
+      have := lowerPat_correct sig p t v hty hv
+      rw [hc] at this
+      simp only [evalCode, Option.some.injEq] at this
+      simp [← this]
+    | false => simp
+
+/-- **let_destructure_total**: `let p = e;` whose pattern the checker accepted as irrefutable (typed,
+exhaustiveness analysis of `[p]` reports nothing) never faults, and afterwards every declared
+temporary is assigned and holds the source binding. -/
+theorem let_destructure_total (sig : Sig) (cx : Cx) (hcx : CxOk sig cx) (fuel : Nat)
+    (p : CPat) (t : Nat) (v : Val)
+    (hty : cpatTy sig p t = true) (hb : bindsOk p = true)
+    (hacc : incompleteCounterexampleF cx fuel (abstractArms [p]) = some none)
+    (hv : hasTy sig v t = true) :
+    ∃ d, runLet (lowerPat p) v = some d ∧ (∀ x, d.lookup x = (srcDelta p v).lookup x) ∧
+      ∀ x ∈ names p, (d.lookup x).isSome = true := by
+  obtain ⟨i, _, hrun⟩ := exhaustive_no_fallback sig cx hcx fuel [p] t v
+    (by simp [cpatTyAll, hty]) hacc hv
+  have hev : evalCode (lowerPat p) v = some true := by
+    simp only [runMatch, lowerMatch, List.map_cons, List.map_nil, runMatchFrom] at hrun
+    cases he : evalCode (lowerPat p) v with
+    | none => simp [he] at hrun
+    | some b => cases b <;> simp [he] at hrun ⊢
+  obtain ⟨d, hd⟩ := exec_of_eval _ _ _ hev
+  exact ⟨d, by simp [runLet, hd], exec_binds sig p t v d hty hb hv hd, exec_assigns p v d hb hd⟩
+
+/-! ### non-vacuity -/
+
+/-- type 0 = int, type 1 = `E(A, B(int))`, type 2 = `S(val f0: E, val f1: int)` -/
+def sigW : Sig := fun t =>
+  match t with
+  | 1 => .enum 0 [(0, []), (1, [0])]
+  | 2 => .struct [(0, 1), (1, 0)]
+  | _ => .prim
+def cxW : Cx := fun c => match c with | 0 => [(0, 0), (1, 1)] | _ => []
+
+theorem isNone_map {α : Type} (x : Option (Option α)) (h : x.map Option.isNone = some true) :
+    x = some none := by
+  cases x with
+  | none => simp at h
+  | some y => cases y <;> simp_all
+
+theorem sigW_cxOk : CxOk sigW cxW := by
+  intro t cls vs h
+  unfold sigW at h
+  split at h <;> first | (injection h with h1 h2; subst h1; subst h2; rfl) | cases h
+
+/-- `S.init(E.A(), 40)` -/
+def valW : Val := .con none [.con (some ⟨0, 0⟩) [], .prim 40]
+def valB : Val := .con none [.con (some ⟨0, 1⟩) [.prim 2], .prim 40]
+
+-- the former witness of C03-F3 is no longer a typed checked pattern
+example : cpatTy sigW (.object 2 [0, 0, 1] [.variant ⟨0, 1⟩ [.wild], .wild, .wild]) 2 = false := by decide
+
+-- `match s { { f1 as k, f0 as B(n) } -> 0, { f1 as _, f0 as A } -> 1 }` (fields out of order) is
+-- accepted, both arms are reachable, and the bindings are the source ones
 def armsOk : List CPat :=
-  [.object 2 [0, 1] [.variant ⟨0, 1⟩ [.wild], .wild], .object 2 [1, 0] [.wild, .variant ⟨0, 0⟩ []]]
-example : cpatTyAll sigW armsOk 2 = true ∧ noDupFieldsL armsOk = true ∧
+  [.object 2 [1, 0] [.id 7, .variant ⟨0, 1⟩ [.id 8]], .object 2 [1, 0] [.wild, .variant ⟨0, 0⟩ []]]
+example : cpatTyAll sigW armsOk 2 = true ∧ bindsOkL armsOk = true ∧
     incompleteCounterexampleF cxW 10 (abstractArms armsOk) = some none := by
   refine ⟨by decide, by decide, isNone_map _ (by decide)⟩
 example : runMatch (lowerMatch armsOk) valW = .arm 1 := by decide
-example : runMatch (lowerMatch armsOk) (.con none [.con (some ⟨0, 1⟩) [.prim 2], .prim 40]) = .arm 0 := by
-  decide
+example : runMatch (lowerMatch armsOk) valB = .arm 0 := by decide
+example : (execCode (lowerPat (.object 2 [1, 0] [.id 7, .variant ⟨0, 1⟩ [.id 8]])) valB).map
+    (fun r => (r.1, r.2.map (fun b => b.1))) = some (true, [8, 7]) := by decide
+-- or-pattern whose first alternative assigns `x` and then fails: `(B(x) | A) ` is rejected by
+-- `bindsOk` (inconsistent names); `B(x) | B(x)`-style alternatives are consistent
+example : bindsOk (.or [.variant ⟨0, 1⟩ [.id 3], .variant ⟨0, 0⟩ []]) = false := by decide
+example : bindsOk (.or [.variant ⟨0, 1⟩ [.id 3], .variant ⟨0, 1⟩ [.id 3]]) = true := by decide
 example : lowerCrash (.tuple 1 [.wild, .wild]) = true := by decide
+example : runIfLet (lowerPat (.variant ⟨0, 1⟩ [.id 5])) (.con (some ⟨0, 0⟩) []) = .elseB := by rfl
 end matching
 
 end SamVerif.C03
